@@ -71,7 +71,9 @@ int vasprintf(char **strp, const char *fmt, va_list ap) {
   char *s = malloc(2); __CPROVER_assume(s != 0); s[0] = 'E'; s[1] = 0; *strp = s; return 1;
 }
 int fprintf(FILE *stream, const char *fmt, ...) { (void)stream; (void)fmt; return 0; }
-#ifdef VH_REAL_STRDUP
+#ifdef VH_NO_STRDUP_MODEL
+/* the harness brings its own strdup */
+#elif defined(VH_REAL_STRDUP)
 /* faithful strdup for the catalogue harnesses (names matter there): bounded by VH_STRMAX bytes */
 #ifndef VH_STRMAX
 #define VH_STRMAX 96
